@@ -179,7 +179,7 @@ fn c15e_bt4_find_matches_depth3_bounds() {
     bt4_find_matches_step::<40>(12, 8, 4, 3, false);
 }
 
-//@ {"replay":"model","name":"c01h_bt4_skip","tier":"thorough","props":["C01","C15"],"obligation":"C01-H","stubbing":true,"stubs":["Hash234 table accessors -> environment stub (harness/api_hash234.rs)"],"timeout":5400,"mem_gb":9,"functions":["lz::bt4::BT4::skip","lz::bt4::BT4::move_pos"],"bounds":"skip length 0..=1 (symbolic), depth limit 2, nice_len 8, same state space as c01h_bt4_find_matches_sound; unwind 12","assumes":["table invariant T1, T2, T4","no renormalisation in these steps"]}
+//@ {"replay":"model","name":"c01h_bt4_skip","tier":"thorough","props":["C01","C15"],"obligation":"C01-H","stubbing":true,"stubs":["Hash234 table accessors -> environment stub (harness/api_hash234.rs)"],"timeout":5400,"mem_gb":18,"functions":["lz::bt4::BT4::skip","lz::bt4::BT4::move_pos"],"bounds":"skip length 0..=1 (symbolic), depth limit 2, nice_len 8, same state space as c01h_bt4_find_matches_sound; unwind 12","assumes":["table invariant T1, T2, T4","no renormalisation in these steps"]}
 #[kani::proof]
 #[kani::unwind(12)]
 #[kani::stub(crate::lz::hash234::Hash234::get_hash2_pos, crate::lz::hash234::verif_h234::get2)]
